@@ -14,7 +14,7 @@ use std::task::{Context, Poll, Wake, Waker};
 const RULE: &str = "one case = one real multi-threaded execution of a writer thread (1 or 2 polls of poll_obtain_write_permission, counting waker) against an acknowledge(n) and/or disallow_write() performed by other threads on a standalone MuxStream, \
 with initial credit 0/1/2; the observer hook blocks every thread at every hook event until a turn-taking scheduler releases it, so an execution is a chosen total order of hook events; all orders are enumerated depth-first by replay (plus random orders). \
 Oracle W1-W4: credit conserved (final = initial + acknowledged - taken), a writer left Pending has either been woken since its last poll began or credit is 0 and the stream is open, polls that begin after the close returned fail, a frame only with a unit of credit. \
-Non-trivial = another thread's step landed inside a writer poll; distinct = distinct hook-event orders";
+Plus a free-running stress (no scheduler): a writer thread taking credit in a tight loop against a thread granting it in a tight loop, judged by exact conservation at the end (reaches interleavings between individual atomic operations). Non-trivial = another thread's step landed inside a writer poll, or a stress round in which credit was taken while grants were in progress; distinct = distinct hook-event orders";
 
 struct CountWaker(AtomicU64);
 impl Wake for CountWaker {
@@ -307,6 +307,79 @@ fn enumerate(st: &mut Stats, cfg: &Config, engine: &str, limit: u64, repeats: u3
     }
 }
 
+/// Free-running stress (no scheduler: the observer returns at once for threads without a TID):
+/// one writer thread takes credit as fast as it can while another thread grants it in a tight loop.
+/// Reaches interleavings between individual atomic operations, which the hook-level scheduler cannot.
+/// Oracle: W1 conservation at the end (final = initial + granted - frames), exact.
+fn stress(st: &mut Stats, rng: &mut Rng64, rounds: u64, grants: u32, engine: &str) {
+    use std::sync::atomic::AtomicBool;
+    for round in 0..rounds {
+        let c0 = rng.below(3) as u32;
+        let unit = 1 + rng.below(2) as u32;
+        let sa = verif::standalone_stream(7, c0, 8, 4);
+        let stream = Arc::new(sa.stream);
+        let ctl = Arc::new(sa.ctl);
+        let _keep = (sa.tx_msg_rx, sa.dropped_flows_rx);
+        let done = Arc::new(AtomicBool::new(false));
+        let barrier = Arc::new(std::sync::Barrier::new(2));
+        let wakes = Arc::new(CountWaker(AtomicU64::new(0)));
+        let (s, d, b, wk) = (stream.clone(), done.clone(), barrier.clone(), wakes.clone());
+        let writer = std::thread::spawn(move || {
+            let waker = Waker::from(wk);
+            let cx = Context::from_waker(&waker);
+            b.wait();
+            let (mut ready, mut during) = (0u32, 0u32);
+            loop {
+                let finished = d.load(Ordering::SeqCst);
+                match s.poll_obtain_write_permission(&cx) {
+                    Poll::Ready(Some(())) => {
+                        ready += 1;
+                        if !finished {
+                            during += 1;
+                        }
+                    }
+                    Poll::Ready(None) => break,
+                    Poll::Pending => {
+                        if finished {
+                            break;
+                        }
+                        std::hint::spin_loop();
+                    }
+                }
+            }
+            (ready, during)
+        });
+        let (c, d, b) = (ctl.clone(), done.clone(), barrier.clone());
+        let acker = std::thread::spawn(move || {
+            b.wait();
+            for _ in 0..grants {
+                c.acknowledge(unit);
+            }
+            d.store(true, Ordering::SeqCst);
+        });
+        acker.join().ok();
+        let (ready, during) = writer.join().unwrap_or((0, 0));
+        st.evaluations += 1;
+        let granted = grants * unit;
+        let fin = stream.verif_send_credit();
+        if u64::from(fin) + u64::from(ready) != u64::from(c0) + u64::from(granted) {
+            st.violation(Violation {
+                signature: "credit-not-conserved|stress".into(),
+                detail: format!("free-running writer against {grants} x acknowledge({unit}): final credit {fin} + frames {ready} != initial {c0} + granted {granted}"),
+                replay: json!({"kind": "c12-stress", "engine": engine, "round": round, "c0": c0, "unit": unit, "grants": grants, "final_credit": fin, "frames": ready, "note": "real-thread race; re-run the job, the round is not deterministic"}),
+            });
+        }
+        if during > 0 {
+            st.target("stress_takes_while_granting", u64::from(during));
+            st.nontrivial(mix(mix(0x57e5, round), mix(u64::from(during), u64::from(ready))));
+        }
+        if st.too_many_violations() {
+            break;
+        }
+    }
+    st.count("stress_rounds", rounds);
+}
+
 pub fn run(p: &Params) -> (Stats, &'static str) {
     install();
     let mut st = Stats::new();
@@ -342,6 +415,10 @@ pub fn run(p: &Params) -> (Stats, &'static str) {
         }
     }
     st.count("hook_orders_enumerated", orders);
+    {
+        let (rounds, grants) = if miri { (6, 12) } else if p.tier_thorough { (400, 20_000) } else { (60, 20_000) };
+        stress(&mut st, &mut rng, rounds, grants, engine);
+    }
     if !miri && p.tier_thorough {
         st.exhaustive.push("all total orders of hook events for initial credit 0..2 x 1-2 writer polls x {ack(1), ack(2), close, ack+close, ack+ack}".into());
     }
